@@ -371,6 +371,11 @@ func c07Monitor(s c07Scn, op c07Op, pre c07Pre, step c07Step) []Mon {
 		}
 	}
 	for k := range cmSpec {
+		if k == "compositionRevisionRef" && !ssa && auto {
+			// Under Automatic the XR is authoritative for the revision: the client-side
+			// syncer mirrors "the XR has none yet" as null, which the API server prunes.
+			continue
+		}
 		if !c07Has(pcSpec, k) {
 			add("C07:claim-spec-changed", "spec."+k+" disappeared from the claim")
 		}
